@@ -35,6 +35,7 @@ type zzCall struct {
 	host, scheme, auth, method string
 	at                         time.Time
 	status                     int
+	retryAfter                 bool
 }
 
 var errZZConn = errors.New("zz: connection reset")
@@ -43,9 +44,14 @@ func (n *zzFaultNet) RoundTrip(req *http.Request) (*http.Response, error) {
 	c := zzCall{host: req.URL.Host, scheme: req.URL.Scheme, auth: req.Header.Get("Authorization"), method: req.Method, at: time.Now()}
 	status := 200
 	if len(n.calls) < n.budget {
-		status = []int{200, 401, 404, 429, 500, 502, -1}[zzInt("reply", 0, 6)]
+		status = []int{200, 401, 404, 429, 500, 502, -1, 1429}[zzInt("reply", 0, 7)]
+	}
+	retryAfter := false
+	if status == 1429 { // 429 that asks for a one second pause
+		status, retryAfter = 429, true
 	}
 	c.status = status
+	c.retryAfter = retryAfter
 	n.calls = append(n.calls, c)
 	if status == -1 {
 		return nil, errZZConn
@@ -58,6 +64,9 @@ func (n *zzFaultNet) RoundTrip(req *http.Request) (*http.Response, error) {
 			realm = "r" + strconv.Itoa(n.realmN)
 		}
 		h.Set("WWW-Authenticate", `Basic realm="`+realm+`"`)
+	}
+	if retryAfter {
+		h.Set("Retry-After", "1")
 	}
 	body := ""
 	if status == 200 {
@@ -79,6 +88,8 @@ const (
 )
 
 var zzMirrorLogin bool // the mirror has its own login
+
+const zzNextForC11 = false
 
 func zzMkClient(net *zzFaultNet, retry int, mirrorTLS config.TLSConf, withMirror bool) *Client {
 	c := NewClient(WithRetryLimit(retry), WithDelay(2*time.Millisecond, 8*time.Millisecond))
@@ -106,7 +117,10 @@ func zzMkClient(net *zzFaultNet, retry int, mirrorTLS config.TLSConf, withMirror
 // the mirror, the upstream's credentials never reach the mirror, and a host
 // configured for TLS is never addressed over http.
 func ZZC12_next() {
-	virtual := zzBool("virtual_time")
+	// the file serves two properties: the copy under harness/C11 draws the inputs that matter for
+	// credential confinement (caller headers, a mirror login), this one those for termination and back-off
+	const forC11 = zzNextForC11
+	virtual := !forC11 && zzBool("virtual_time")
 	if virtual {
 		zzClockVirtual()
 	}
@@ -117,7 +131,7 @@ func ZZC12_next() {
 	if withMirror && zzBool("mirror_plain_http") {
 		mirrorTLS = config.TLSDisabled
 	}
-	zzMirrorLogin = withMirror && zzBool("mirror_has_login")
+	zzMirrorLogin = forC11 && withMirror && zzBool("mirror_has_login")
 	c := zzMkClient(net, R, mirrorTLS, withMirror)
 	method := "GET"
 	noMirrors := false
@@ -125,10 +139,10 @@ func ZZC12_next() {
 		method, noMirrors = "PUT", true
 	}
 	// requests that ask for errors to be ignored (anonymous mount, tag delete probe, referrers probe) set no back-off
-	ignoreErr := zzBool("ignore_err")
+	ignoreErr := !forC11 && zzBool("ignore_err")
 	// caller headers (manifest and tag requests carry an Accept list, blob requests none)
 	var hdrs http.Header
-	if zzBool("caller_headers") {
+	if forC11 && zzBool("caller_headers") {
 		hdrs = http.Header{"Accept": {"application/vnd.oci.image.manifest.v1+json"}}
 	}
 	resp, err := c.Do(context.Background(), &Req{Host: zzUp, Method: method, Repository: "repo", Path: "manifests/tag", NoMirrors: noMirrors, IgnoreErr: ignoreErr, Headers: hdrs})
@@ -169,7 +183,12 @@ func ZZC12_next() {
 			switch net.calls[j].status {
 			case 429, 500, 502, -1:
 				zzReach("request_after_backoff_failure")
-				zzAssert(cl.at.Sub(net.calls[j].at) >= 4*time.Millisecond, "backoff_delay_honoured")
+				if net.calls[j].retryAfter && !ignoreErr {
+					zzReach("request_after_retry_after")
+					zzAssert(cl.at.Sub(net.calls[j].at) >= time.Second, "server_requested_delay_honoured")
+				} else {
+					zzAssert(cl.at.Sub(net.calls[j].at) >= 4*time.Millisecond, "backoff_delay_honoured")
+				}
 			}
 			break
 		}
